@@ -20,7 +20,7 @@ META = {
     "title": "Parallel-move lowering performs a simultaneous assignment",
     "category": "proof",
     "design_ref": "DESIGN.md §5 C20",
-    "lean_modules": ["XdslProofs.C20", "XdslProofs.C20Algo"],
+    "lean_modules": ["XdslProofs.C20", "XdslProofs.C20Algo", "XdslProofs.C20Rename"],
     "text": (
         "Lean: XdslModel/ParallelMov.lean is the lowering algorithm of riscv_lower_parallel_mov.py (with the repairs of "
         "fix_1.patch) over (kind, index) registers with Python's iteration order made explicit, plus a register machine "
@@ -34,8 +34,16 @@ META = {
         "free register', only when no float register is designated free and the float moves contain a cycle; "
         "`pmov_succeeds` — hence it succeeds and is correct for all integer moves and whenever a float register is free.  "
         "XdslProofs/C20.lean proves `checkSeq_sound` (symbolic execution over xor-sets of initial registers accepts ⇒ the "
-        "sequence realises the assignment for all register files).  Tie to /repo: every enumerated move graph is lowered "
-        "by the real pass and by the model; op lists and result wiring must be equal; the real op list is executed by an "
+        "sequence realises the assignment for all register files).  XdslProofs/C20Rename.lean proves "
+        "`pmov_placement_invariant` (the lowering commutes with every injective renaming of the registers that keeps "
+        "register file and allocation and maps exactly zero to zero: registers matter only through their identity, and "
+        "zero = (int, 0) is the only one singled out) and `pmov_float_index0_ordinary` (ft0, which shares index 0 with zero, "
+        "is exchangeable with any float register).  Tie to /repo: every enumerated move graph is lowered "
+        "by the real pass and by the model, in the base placement and in placements chosen to separate registers that a "
+        "wrong comparison would conflate (a float register at index 0, one index in both register files, infinite "
+        "registers, zero spelled x0, numeric spellings, random placements over both whole register files); protocol tokens "
+        "are physical registers (register file, index), so the model's zero/(flt,0) are literally the pass's zero/ft0; op "
+        "lists and result wiring must be equal; the real op list is executed by an "
         "independent Python register machine (direct oracle) and certified by the proved checkSeq inside the Lean driver."
     ),
     "technique": "Lean 4 proof (algorithm model + proved validator) + exhaustive small-scope differential correspondence with the real pass",
@@ -44,8 +52,16 @@ META = {
         "destination up to twice — thorough: 4 registers with ≤2 moves into zero, every free list, both SSA modes; quick: 4 "
         "registers with ≤1 / 3 registers with ≤2 moves into zero, for lists of ≥4 moves one free list and every third "
         "distinct-SSA variant drawn by the seed), ≤3 float registers with all width patterns, all interleavings of small "
-        "integer and float graphs, registers named canonically by first appearance (the algorithm only compares registers "
-        "for equality; thorough additionally runs all labelled variants for ≤3 registers), free lists of 0/1/2 designated "
+        "integer and float graphs, graph nodes numbered canonically by first appearance (thorough additionally runs all "
+        "labelled variants for ≤3 registers) and placed at i1..i6 = ra..t1 / f1..f5 = ft1..ft5 (base placement); naming "
+        "variants of the same cases (`naming_variants`): float family and (thorough) mixed cases over ≤2+2 registers — each "
+        "float register in turn at ft0, all-numeric spelling x<k>/f<k>, all registers infinite (j_<n>/fj_<n>), zero spelled "
+        "x0, one random placement over both whole register files biased to float registers sharing their index with zero or "
+        "with an integer register of the case, random spellings (x<k>, f<k>, fp); quick mixed family — one float register at "
+        "ft0 + one random placement per case (thorough, larger mixed graphs: seeded samples 1/8, 1/16, 1/50); integer "
+        "family — zero spelled x0 for every graph over ≤3 registers with ≤1 move into zero (thorough: all over ≤3 registers "
+        "+ 1/100), random placement + infinite registers for every ~25th (thorough ~200th) case and every regression case.  `pmov_placement_invariant` is the model-side reason why placements beyond "
+        "these cannot matter.  Free lists of 0/1/2 designated "
         "registers per kind, widths 32/64 per source register, operands as one shared SSA value per source register or one "
         "SSA value per operand; plus a small malformed stream (unallocated registers, unsupported widths → diagnostic "
         "failure expected).  The Lean theorems hold for all move lists, not only the enumerated ones.  Excluded: designated "
@@ -75,30 +91,63 @@ META = {
 }
 
 # ---------------------------------------------------------------------------------------------
-# Registers.  Token = kind letter + small index.  i0 = zero; i1..i4 = a0..a3; i5,i6 = t0,t1 (only
-# ever designated free); f1..f3 = fa0..fa2; f4,f5 = ft0,ft1.  iu / fu = unallocated (malformed stream).
+# Registers.  Token = kind letter + PHYSICAL register number: `i<k>` / `f<k>` with k < 32 is the
+# register of index k of the integer / float register file (i0 = the hard-wired zero, i10 = a0,
+# f0 = ft0, f10 = fa0, …), k >= 32 is the "infinite" register j_<k-32> / fj_<k-32> (xDSL index
+# ~(k-32) < 0).  iu / fu = unallocated (malformed stream).  The Lean model works on the same
+# (kind, number) pairs, so `Reg.zero = (int, 0)`, `(flt, 0)` = ft0 etc. are literally the registers
+# the real pass sees.  A register is spelled with its ABI name unless the case's `names` component
+# gives another spelling of the SAME physical register (x<k> / f<k>, `fp` for s0); one spelling per
+# physical register and case.  Names come from this file's own tables (not from the code under
+# test); `_type_tok` reads a real register type back by (class, index).
 # ---------------------------------------------------------------------------------------------
-INT_NAMES = ["zero", "a0", "a1", "a2", "a3", "t0", "t1"]
-FLT_NAMES = [None, "fa0", "fa1", "fa2", "ft0", "ft1"]
+INT_ABI = ["zero", "ra", "sp", "gp", "tp", "t0", "t1", "t2", "s0", "s1"] + [f"a{k}" for k in range(8)] \
+    + [f"s{k}" for k in range(2, 12)] + [f"t{k}" for k in range(3, 7)]
+FLT_ABI = [f"ft{k}" for k in range(8)] + ["fs0", "fs1"] + [f"fa{k}" for k in range(8)] \
+    + [f"fs{k}" for k in range(2, 12)] + [f"ft{k}" for k in range(8, 12)]
+assert len(INT_ABI) == 32 and len(FLT_ABI) == 32
+NFINITE = 32
 
 
-def tok_name(tok: str) -> str | None:
+def tok_name(tok: str, names: tuple = ()) -> str | None:
+    """assembly name of a token (None = unallocated)"""
     if tok[1:] == "u":
         return None
-    return INT_NAMES[int(tok[1:])] if tok[0] == "i" else FLT_NAMES[int(tok[1:])]
+    for t, n in names:
+        if t == tok:
+            return n
+    k = int(tok[1:])
+    if k >= NFINITE:
+        return ("j_" if tok[0] == "i" else "fj_") + str(k - NFINITE)
+    return INT_ABI[k] if tok[0] == "i" else FLT_ABI[k]
 
 
-_NAME_TOK = {n: f"i{k}" for k, n in enumerate(INT_NAMES)} | {n: f"f{k}" for k, n in enumerate(FLT_NAMES) if n}
+def numeric_name(tok: str) -> str:
+    """the x<k> / f<k> spelling of a finite register"""
+    return ("x" if tok[0] == "i" else "f") + tok[1:]
 
-Case = tuple  # (moves: tuple[(src, dst)], widths: tuple[int] per move, free: tuple[str], ssa: "shared"|"distinct")
+
+Case = tuple  # (moves: tuple[(src, dst)], widths: tuple[int] per move, free: tuple[str], ssa: "shared"|"distinct"
+#                [, names: tuple[(token, spelling)]])
+
+
+def case_names(c: Case) -> tuple:
+    return c[4] if len(c) > 4 else ()
 
 
 def case_json(c: Case) -> dict[str, Any]:
-    return {"moves": [list(m) for m in c[0]], "widths": list(c[1]), "free": list(c[2]), "ssa": c[3]}
+    d = {"moves": [list(m) for m in c[0]], "widths": list(c[1]), "free": list(c[2]), "ssa": c[3]}
+    if case_names(c):
+        d["names"] = [list(x) for x in case_names(c)]
+    regs = sorted({t for m in c[0] for t in m} | set(c[2]))
+    d["registers"] = {t: tok_name(t, case_names(c)) for t in regs}  # informative only
+    return d
 
 
 def case_from_json(d: dict[str, Any]) -> Case:
-    return (tuple(tuple(m) for m in d["moves"]), tuple(d["widths"]), tuple(d["free"]), d.get("ssa", "shared"))
+    base = (tuple(tuple(m) for m in d["moves"]), tuple(d["widths"]), tuple(d["free"]), d.get("ssa", "shared"))
+    names = tuple(tuple(x) for x in d.get("names", []))
+    return base + (names,) if names else base
 
 
 def case_line(c: Case) -> str:
@@ -112,20 +161,24 @@ def case_line(c: Case) -> str:
 _OPK = {"riscv.mv": "mv", "riscv.fmv.s": "fmv32", "riscv.fmv.d": "fmv64", "riscv.xor": "xor"}
 
 
-def _reg_type(tok: str):
+def _reg_type_named(tok: str, names: tuple = ()):
     from xdsl.dialects import riscv
 
     cls = riscv.IntRegisterType if tok[0] == "i" else riscv.FloatRegisterType
-    n = tok_name(tok)
+    n = tok_name(tok, names)
     return cls.unallocated() if n is None else cls.from_name(n)
 
 
 def _type_tok(t) -> str:
+    """physical identity of a real register type: (register class, index)"""
     from xdsl.dialects import riscv
+    from xdsl.dialects.builtin import IntAttr
 
-    if not t.is_allocated and t != riscv.Registers.ZERO:
-        return "iu" if isinstance(t, riscv.IntRegisterType) else "fu"
-    return _NAME_TOK[t.register_name.data]
+    k = "i" if isinstance(t, riscv.IntRegisterType) else "f"
+    if not isinstance(t.index, IntAttr):
+        return k + "u"
+    i = t.index.data
+    return k + str(i if i >= 0 else NFINITE + ~i)
 
 
 def impl_run(c: Case) -> str:
@@ -136,7 +189,9 @@ def impl_run(c: Case) -> str:
     from xdsl.transforms.riscv_lower_parallel_mov import RISCVLowerParallelMovPass
     from xdsl.utils.exceptions import PassFailedException
 
-    moves, widths, free, ssa = c
+    moves, widths, free, ssa = c[:4]
+    spell = case_names(c)
+    _reg_type = lambda t: _reg_type_named(t, spell)  # noqa: E731
     if ssa == "shared":
         names: list[str] = []
         for s, _ in moves:
@@ -359,12 +414,15 @@ def oracle(c: Case, obs: str) -> tuple[str, str] | None:
     if r is None:
         return None
     tags = []
+    x0 = " (spelled x0)" if any(t == "i0" for t, _ in case_names(c)) else ""
     if any(d == "i0" and s != d for s, d in c[0]):
-        tags.append("move into zero")
+        tags.append("move into zero" + x0)
     elif any(s == "i0" and s != d for s, d in c[0]):
-        tags.append("zero as source")
+        tags.append("zero as source" + x0)
     if c[3] == "distinct" and len({s for s, _ in c[0]}) < len(c[0]):
         tags.append("several SSA values in one source register")
+    if any("f0" in m and m[0] != m[1] for m in c[0]):
+        tags.append("float register of index 0")
     if obs.startswith("ok") and "xor:" in obs:
         tags.append("xor swaps")
     return (r[0] + (" [" + "; ".join(tags) + "]" if tags else ""), r[1])
@@ -382,7 +440,7 @@ NON_SEMANTIC = {
 
 
 def oracle_untagged(c: Case, obs: str) -> tuple[str, str] | None:
-    moves, widths, free, _ = c
+    moves, widths, free = c[:3]
     facts = graph_facts(c)
     if obs.startswith("invalid") or obs == "timeout":
         return None  # the generated op did not verify: outside the quantifier (counted); `timeout` = see resolve_timeouts
@@ -538,6 +596,8 @@ REGRESSIONS = [
     # two SSA values living in the same source register (counter was keyed by value)
     ([("i2", "i1"), ("i1", "i2"), ("i1", "i3")], [], "distinct"),
     ([("i1", "i2"), ("i1", "i3"), ("i4", "i1")], [], "distinct"),
+    # ft0 (index 0 of the float file) is an ordinary register: chain through it
+    ([("f1", "f0"), ("f0", "f2")], [], "shared"),
 ]
 
 FREE_OPTS_I = [(), ("i5",), ("i6", "i5")]
@@ -562,8 +622,115 @@ def with_widths(ctx: core.Ctx, moves: tuple, all_float_patterns: bool) -> Iterat
         yield tuple(p[s] for s, _ in moves)
 
 
+def rename(c: Case, sigma: dict[str, str], names: tuple = ()) -> Case:
+    """the same parallel move on other physical registers (`sigma` injective per kind, fixes i0) and/or
+    with other spellings"""
+    r = lambda t: sigma.get(t, t)  # noqa: E731
+    out = (tuple((r(s), r(d)) for s, d in c[0]), c[1], tuple(r(f) for f in c[2]), c[3])
+    return out + (tuple(names),) if names else out
+
+
+def case_regs(c: Case) -> list[str]:
+    out: list[str] = []
+    for t in [t for m in c[0] for t in m] + list(c[2]):
+        if t not in out and t[1:] != "u":
+            out.append(t)
+    return out
+
+
+def numeric_names(regs: Iterable[str]) -> tuple:
+    return tuple((t, numeric_name(t)) for t in regs if int(t[1:]) < NFINITE)
+
+
+def random_naming(ctx: core.Ctx, c: Case) -> tuple[dict[str, str], tuple]:
+    """A random placement of the case's registers in the two register files (finite and infinite
+    registers), biased towards what a register comparison could get wrong: float registers that share
+    their index with an integer register of the same case or with `zero` (ft0), and random spellings."""
+    rng = ctx.rng
+    regs = case_regs(c)
+    ints = [t for t in regs if t[0] == "i" and t != "i0"]
+    flts = [t for t in regs if t[0] == "f"]
+    pool_i = list(range(1, NFINITE)) + list(range(NFINITE, NFINITE + 4))
+    ii = rng.sample(pool_i, len(ints))
+    sigma = {t: f"i{k}" for t, k in zip(ints, ii)}
+    pool_f = list(range(0, NFINITE)) + list(range(NFINITE, NFINITE + 4))
+    if rng.randrange(2):
+        pref = [0] + ii  # collide with zero / with the integer registers of this case
+        rng.shuffle(pref)
+        pool_f = pref + [k for k in rng.sample(pool_f, len(pool_f)) if k not in pref]
+        ff = pool_f[: len(flts)]
+        rng.shuffle(ff)
+    else:
+        ff = rng.sample(pool_f, len(flts))
+    sigma.update({t: f"f{k}" for t, k in zip(flts, ff)})
+    names = []
+    for t in sorted(set(sigma.values()) | ({"i0"} & set(regs))):
+        if int(t[1:]) >= NFINITE:
+            continue
+        x = rng.randrange(4)
+        if x == 0:
+            names.append((t, numeric_name(t)))
+        elif t == "i8" and x == 1:
+            names.append((t, "fp"))
+    return sigma, tuple(names)
+
+
+def naming_variants(ctx: core.Ctx, fam: str, c: Case) -> Iterator[tuple[str, Case]]:
+    """The pass may only compare registers for physical identity (register file + index); the base
+    families fix one placement (i1..i6 = ra..t1, f1..f5 = ft1..ft5).  These variants move the same
+    graph to the places where a wrong comparison shows: a float register at index 0 (the index of
+    `zero` in the other file), `zero` spelled `x0`, numeric spellings, infinite registers (negative
+    indices), and random placements/spellings over both whole register files."""
+    quick = ctx.tier == "quick"
+    base = fam.split("/")[0]
+    regs = case_regs(c)
+    flts = [t for t in regs if t[0] == "f"]
+    rng = ctx.rng
+    inf = {t: t[0] + str(NFINITE + int(t[1:])) for t in regs if t != "i0"}
+    nodes = lambda k: len({t for m in c[0] for t in m if t[0] == k and t != "i0"})  # noqa: E731
+    if base == "float" or (base == "mixed" and not quick and nodes("i") <= 2 and nodes("f") <= 2):
+        for t in flts:
+            yield fam + "/f0", rename(c, {t: "f0"})
+        yield fam + "/numeric", rename(c, {}, numeric_names(regs))
+        yield fam + "/infinite", rename(c, inf)
+        if "i0" in regs:
+            yield fam + "/x0", rename(c, {}, (("i0", "x0"),))
+        sigma, names = random_naming(ctx, c)
+        yield fam + "/placed", rename(c, sigma, names)
+    elif base == "mixed":
+        # quick: one float register at ft0 + one random placement per case; thorough (graphs beyond 2+2 nodes): samples
+        if flts and (quick or rng.randrange(8) == 0):
+            yield fam + "/f0", rename(c, {flts[rng.randrange(len(flts))]: "f0"})
+        if quick or rng.randrange(16) == 0:
+            sigma, names = random_naming(ctx, c)
+            yield fam + "/placed", rename(c, sigma, names)
+        if not quick and rng.randrange(50) == 0:
+            yield fam + "/numeric", rename(c, {}, numeric_names(regs))
+            yield fam + "/infinite", rename(c, inf)
+            if "i0" in regs:
+                yield fam + "/x0", rename(c, {}, (("i0", "x0"),))
+    elif base in ("int", "regression"):
+        n = len({t for t in regs if t not in ("i0", "i5", "i6")})
+        small = n <= 3 and sum(d == "i0" for _, d in c[0]) <= 1
+        if "i0" in regs and (small if quick else n <= 3 or rng.randrange(100) == 0):
+            yield fam + "/x0", rename(c, {}, (("i0", "x0"),))
+        if base == "regression" or rng.randrange(25 if quick else 200) == 0:
+            sigma, names = random_naming(ctx, c)
+            yield fam + "/placed", rename(c, sigma, names)
+            yield fam + "/infinite", rename(c, inf)
+
+
 def gen_cases(ctx: core.Ctx) -> Iterator[tuple[str, Case]]:
-    """yields (family, case)"""
+    """yields (family, case): the base families and, after each base case, its naming variants"""
+    for fam, c in base_cases(ctx):
+        yield fam, c
+        if fam != "malformed" and not fam.endswith("-labelled"):
+            yield from naming_variants(ctx, fam, c)
+
+
+def base_cases(ctx: core.Ctx) -> Iterator[tuple[str, Case]]:
+    """yields (family, case) in the base placement i1..i4 = ra..tp, free i5/i6 = t0/t1; f1..f3 =
+    ft1..ft3, free f4/f5 = ft4/ft5"""
     quick = ctx.tier == "quick"
     T = lambda k, g: tuple((f"{k}{s}", f"{k}{d}") for s, d in g)  # noqa: E731
 
@@ -593,36 +760,50 @@ def gen_cases(ctx: core.Ctx) -> Iterator[tuple[str, Case]]:
     ]:
         yield "malformed", (moves, ws, (), "shared")
         yield "malformed", (moves, ws, ("i5", "f4"), "shared")
-    # integer graphs (zero as source, and as destination)
-    int_sets = [(4, 1), (3, 2)] if quick else [(4, 2)]
-    seen: set[tuple] = set()
-    for n, z in int_sets:
-        for g in kind_graphs(n, z, True):
-            if g in seen:
-                continue
-            seen.add(g)
-            yield from expand("int", T("i", g), FREE_OPTS_I, False, thin=quick and len(g) >= 4)
     # float graphs
     for g in kind_graphs(3, 0, False):
         yield from expand("float", T("f", g), FREE_OPTS_F, True)
-    # mixed: every interleaving of an integer and a float graph
-    ni, nf, mm = (2, 2, 3) if quick else (3, 3, 3)
-    igs = [g for g in kind_graphs(ni, 1, True, maxmoves=mm) if g]
-    fgs = [g for g in kind_graphs(nf, 0, False, maxmoves=mm) if g]
-    for ig in igs:
-        for fg in fgs:
-            ms = list(merges(T("i", ig), T("f", fg)))
-            if quick and len(ms) > 3:
-                ms = ctx.rng.sample(ms, 3)
-            for m in ms:
-                frees = [fi + ff for fi in FREE_OPTS_I[:2] for ff in FREE_OPTS_F[:2]]
-                yield from expand("mixed", m, frees, False, thin=quick)
     # labelled variants (no canonical numbering): the algorithm must not depend on register names
     if not quick:
         for g in labelled_graphs(3, True):
             yield from expand("int-labelled", T("i", g), FREE_OPTS_I[:2], False)
         for g in labelled_graphs(3, False):
             yield from expand("float-labelled", T("f", g), FREE_OPTS_F[:2], False)
+    # the two big families, interleaved in blocks so that a run cut short by the time budget loses the tail (the
+    # largest graphs) of both instead of one family entirely
+
+    def mixed_family() -> Iterator[tuple[str, Case]]:
+        # every interleaving of an integer and a float graph
+        ni, nf, mm = (2, 2, 3) if quick else (3, 3, 3)
+        igs = [g for g in kind_graphs(ni, 1, True, maxmoves=mm) if g]
+        fgs = [g for g in kind_graphs(nf, 0, False, maxmoves=mm) if g]
+        for ig in igs:
+            for fg in fgs:
+                ms = list(merges(T("i", ig), T("f", fg)))
+                if quick and len(ms) > 3:
+                    ms = ctx.rng.sample(ms, 3)
+                for m in ms:
+                    frees = [fi + ff for fi in FREE_OPTS_I[:2] for ff in FREE_OPTS_F[:2]]
+                    yield from expand("mixed", m, frees, False, thin=quick)
+
+    def int_family() -> Iterator[tuple[str, Case]]:
+        # integer graphs (zero as source, and as destination)
+        int_sets = [(4, 1), (3, 2)] if quick else [(4, 2)]
+        seen: set[tuple] = set()
+        for n, z in int_sets:
+            for g in kind_graphs(n, z, True):
+                if g in seen:
+                    continue
+                seen.add(g)
+                yield from expand("int", T("i", g), FREE_OPTS_I, False, thin=quick and len(g) >= 4)
+
+    gens = [mixed_family(), int_family()]
+    while gens:
+        for g in list(gens):
+            block = list(itertools.islice(g, 1000))
+            if len(block) < 1000:
+                gens.remove(g)
+            yield from block
 
 
 # ---------------------------------------------------------------------------------------------
@@ -662,6 +843,17 @@ def evaluate(ctx: core.Ctx, fams: list[str], cases: list[Case], obs: list[str], 
             ctx.count("shape.zero-destination")
         if any(s == "i0" for s, _ in c[0]):
             ctx.count("shape.zero-source")
+        regs = case_regs(c)
+        if "f0" in regs:
+            ctx.count("placement.float-index-0" + ("-in-moves" if any("f0" in m for m in c[0]) else "-free-only"))
+        if any(t[0] == "f" and "i" + t[1:] in regs for t in regs):
+            ctx.count("placement.one-index-in-both-files")
+        if any(int(t[1:]) >= NFINITE for t in regs):
+            ctx.count("placement.infinite-registers")
+        if any(t == "i0" for t, _ in case_names(c)):
+            ctx.count("spelling.zero-as-x0")
+        elif case_names(c):
+            ctx.count("spelling.non-abi")
         if o.startswith("fail float-cycle") and sequence_exists(c):
             ctx.count("fail_but_sequence_exists")
         if bad is not None:
